@@ -24,6 +24,7 @@ impl Emitter {
         Emitter { dir: dir.into(), files: vec![], stats: BTreeMap::new(), exhaustive: false, notes: vec![] }
     }
     pub fn raw_file(&mut self, name: &str, coq: &str, metas: Vec<String>) {
+        let coq = intern_big_numbers(coq);
         fs::write(self.dir.join(format!("{}.v", name)), coq).unwrap();
         fs::write(self.dir.join(format!("{}.json", name)), format!("[{}]", metas.join(",\n"))).unwrap();
         self.files.push(name.to_string());
@@ -63,4 +64,69 @@ impl Emitter {
         s.push_str("\n }\n}\n");
         fs::write(self.dir.join("meta.json"), s).unwrap();
     }
+}
+
+fn dec_to_hex(d: &str) -> String {
+    // repeated division by 2^32 on base-1e9 limbs
+    let mut limbs: Vec<u64> = vec![];
+    let bytes = d.as_bytes();
+    let mut i = bytes.len() % 9;
+    if i > 0 { limbs.push(d[..i].parse().unwrap()); }
+    while i < bytes.len() { limbs.push(d[i..i + 9].parse().unwrap()); i += 9; }
+    let mut out: Vec<u32> = vec![];
+    while !limbs.is_empty() {
+        let mut rem: u64 = 0;
+        let mut next = Vec::with_capacity(limbs.len());
+        for l in &limbs {
+            let cur = rem * 1_000_000_000 + l;
+            let q = cur >> 32;
+            rem = cur & 0xffff_ffff;
+            if !(next.is_empty() && q == 0) { next.push(q); }
+        }
+        out.push(rem as u32);
+        limbs = next;
+    }
+    let mut s = String::from("0x");
+    let mut first = true;
+    for w in out.iter().rev() {
+        if first { s.push_str(&format!("{:x}", w)); first = false; } else { s.push_str(&format!("{:08x}", w)); }
+    }
+    if first { s.push('0'); }
+    s
+}
+
+/// Coq parses large numerals slowly (milliseconds each): every distinct numeral of 20+ digits is
+/// defined once per file, in hexadecimal, and referred to by name.
+pub fn intern_big_numbers(src: &str) -> String {
+    let b = src.as_bytes();
+    let mut out = String::with_capacity(src.len());
+    let mut names: std::collections::HashMap<&str, usize> = std::collections::HashMap::new();
+    let mut defs: Vec<String> = vec![];
+    let mut i = 0;
+    let mut last = 0;
+    while i < b.len() {
+        if b[i].is_ascii_digit() && (i == 0 || !(b[i - 1].is_ascii_alphanumeric() || b[i - 1] == b'_')) {
+            let mut j = i;
+            while j < b.len() && b[j].is_ascii_digit() { j += 1; }
+            if j - i >= 20 && !(j < b.len() && (b[j].is_ascii_alphabetic() || b[j] == b'_')) {
+                let lit = &src[i..j];
+                let n = names.len();
+                let k = *names.entry(lit).or_insert_with(|| { defs.push(format!("Definition bn_{} : N := {}.", n, dec_to_hex(lit))); n });
+                out.push_str(&src[last..i]);
+                out.push_str(&format!("bn_{}", k));
+                last = j;
+            }
+            i = j;
+        } else { i += 1; }
+    }
+    out.push_str(&src[last..]);
+    if defs.is_empty() { return out; }
+    // definitions go after the header lines (Require / Open Scope)
+    let pos = out.find("Open Scope N_scope.\n").map(|p| p + "Open Scope N_scope.\n".len()).unwrap_or(0);
+    let mut res = String::with_capacity(out.len() + defs.len() * 100);
+    res.push_str(&out[..pos]);
+    res.push_str(&defs.join("\n"));
+    res.push('\n');
+    res.push_str(&out[pos..]);
+    res
 }
